@@ -106,6 +106,8 @@ def load_text(schema, text, overrides=(), url=None, want_objects=False):
      | ('reject', family, type name, lineno, url, message)
     """
     import ZConfig
+    import zcverif_dt.fam as _fam
+    _fam.CURRENT[0] = ("text", schema, text, overrides)
     try:
         if overrides:
             r = ZConfig.loadConfigFile(schema, io.StringIO(text), url,
@@ -114,12 +116,16 @@ def load_text(schema, text, overrides=(), url=None, want_objects=False):
             r = ZConfig.loadConfigFile(schema, io.StringIO(text), url)
     except Exception as e:  # noqa
         fam, tn, lineno, eurl = classify_exception(e)
+        _fam.same_load_mismatch(False)
         return ("reject", fam, tn, lineno, eurl, str(e)[:200], e)
+    finally:
+        _fam.CURRENT[0] = None
     config, handler = r
     containers = []
     tree = canon_value(config, None, containers)
     entries = [[h, canon_value(v)] for h, v in handler._handlers]
-    return ("ok", tree, entries, (config, handler, containers))
+    return _same_load_check(("ok", tree, entries,
+                             (config, handler, containers)))
 
 
 def _finish(fn):
@@ -133,6 +139,21 @@ def _finish(fn):
     tree = canon_value(config, None, containers)
     entries = [[h, canon_value(v)] for h, v in handler._handlers]
     return ("ok", tree, entries, (config, handler, containers))
+
+
+class NestedLoadDiffers(Exception):
+    pass
+
+
+def _same_load_check(result):
+    """Turn an outer success into an internal failure when a nested run of
+    the same load (see zcverif_dt/fam.py) was rejected."""
+    import zcverif_dt.fam as _fam
+    msg = _fam.same_load_mismatch(result[0] == "ok")
+    if msg is None:
+        return result
+    return ("reject", "internal", "NestedLoadDiffers", None, None, msg,
+            NestedLoadDiffers(msg))
 
 
 def write_text(path, text, pad=0):
@@ -178,10 +199,16 @@ def pad_file(path, nbytes, xml=False):
 def load_path(schema, path, overrides=()):
     """Load the file at *path* (or URL) with ZConfig.loadConfig."""
     import ZConfig
-    if overrides:
-        return _finish(lambda: ZConfig.loadConfig(schema, path,
-                                                  overrides=overrides))
-    return _finish(lambda: ZConfig.loadConfig(schema, path))
+    import zcverif_dt.fam as _fam
+    _fam.CURRENT[0] = ("path", schema, path, overrides)
+    try:
+        if overrides:
+            return _same_load_check(_finish(lambda: ZConfig.loadConfig(
+                schema, path, overrides=overrides)))
+        return _same_load_check(_finish(
+            lambda: ZConfig.loadConfig(schema, path)))
+    finally:
+        _fam.CURRENT[0] = None
 
 
 def load_open_file(schema, path, overrides=(), url=None, bytes_name=False):
